@@ -20,8 +20,8 @@
    Result classes: Ok / Err (GenericError returned) / Panic (unwrap on a failed integer parse, missing
    relation, missing actor ...).
 
-   Deliberate abstractions (documented in notes/C13.md): i32 overflow of `id - 1` (TSPLIB), allocation of a
-   HashMap for a negative DIMENSION (modelled as Panic), HashMap iteration order in the TSPLIB reader
+   Deliberate abstractions (documented in notes/C13.md): allocation of a HashMap for a negative DIMENSION
+   (modelled as Panic; a huge positive one is outside the generated domain), HashMap iteration order in the TSPLIB reader
    (oracle argument `ord`), Jobs::new / goal construction (identity on the observed fields).
 
    run_* entry points used by the correspondence: run_solomon, run_lilim, run_tsplib, run_init, run_write. *)
@@ -56,11 +56,33 @@ Definition clamp_i32 (z : Z) : Z := Z.max i32_min (Z.min i32_max z).
 (* f64::round of the decimal m / 10^k : half away from zero *)
 Definition round_half_away (m : Z) (k : nat) : Z :=
   let d := 10 ^ Z.of_nat k in Z.sgn m * ((2 * Z.abs m + d) / (2 * d)).
-(* tsplib/reader.rs :: parse_int  (str -> f64 -> round -> as i32) *)
+(* what Rust computes for a decimal text: str::parse::<f64>() (correctly rounded binary64, round to nearest even)
+   followed by f64::round (half away from zero).  q = n / d >= 0.  Below 1/4 every double rounds to 0; from 2^33 on the
+   result saturates in `as i32` whatever the double is; in between the double of q in the binade 2^e <= q < 2^(e+1)
+   (j = e + 2, s = 52 - e) is M / 2^s with M the nearest-even integer of q * 2^s, computed exactly. *)
+Definition rne_div (n d : Z) : Z :=
+  let a := n / d in let b := n mod d in
+  if 2 * b <? d then a else if d <? 2 * b then a + 1 else if Z.even a then a else a + 1.
+Fixpoint binade (fuel : nat) (j : Z) (n4 d : Z) : option Z :=
+  match fuel with
+  | O => None
+  | S f => if n4 <? 2 ^ (j + 1) * d then Some j else binade f (j + 1) n4 d
+  end.
+Definition f64_round_abs (n d : Z) : Z :=
+  if 4 * n <? d then 0 else
+  match binade 35 0 (4 * n) d with
+  | None => 2 ^ 33
+  | Some j => let s := 54 - j in
+              let M := rne_div (n * 2 ^ s) d in
+              (2 * M + 2 ^ s) / 2 ^ (s + 1)
+  end.
+Definition f64_round (m : Z) (k : nat) : Z := Z.sgn m * f64_round_abs (Z.abs m) (10 ^ Z.of_nat k).
+(* tsplib/reader.rs :: parse_int  (str -> f64 -> round -> as i32); `round_half_away` above is the exact-rational
+   rounding the text suggests, `f64_round` what the code computes (they differ only within 2^-21 of a tie) *)
 Definition parse_int (t : token) : res Z :=
   match t with
   | TInt z => Ok (clamp_i32 z)
-  | TDec m k => Ok (clamp_i32 (round_half_away m k))
+  | TDec m k => Ok (clamp_i32 (f64_round m k))
   | _ => Err
   end.
 
@@ -170,22 +192,24 @@ Definition lilim_map (cs : list lline) : list (Z * lline) := map (fun c => (l_id
 Definition lilim_relations (cs : list lline) : list (Z * Z) :=
   map (fun c => (l_id c, l_rel c)) (filter (fun c => 0 <? l_dem c) cs).
 (* create_single_job: dimens = id "c<id>" and the demand: positive file value = dynamic pickup,
-   otherwise dynamic delivery of the absolute value (i32::MIN.abs() overflow is outside the modelled domain) *)
+   otherwise dynamic delivery of the absolute value; `i32::MIN.abs()` overflows: panic in a build with overflow checks
+   (the harness profile; a release build leaves i32::MIN) *)
 Definition lilim_dimens (c : lline) : option Z * option demand :=
   (Some (l_id c), Some (if 0 <? l_dem c then (0, l_dem c, 0, 0) else (0, 0, 0, Z.abs (l_dem c)))).
-Definition lilim_single (ci : list coord) (c : lline) : list coord * single :=
+Definition lilim_single (ci : list coord) (c : lline) : res (list coord * single) :=
+  if l_dem c =? i32_min then Panic else
   let dimens := lilim_dimens c in
   let '(ci', loc) := collect ci (l_x c, l_y c) in
-  (ci', mkSingle (fst dimens) (snd dimens) loc (l_service c) (l_start c) (Some (l_end c))).
+  Ok (ci', mkSingle (fst dimens) (snd dimens) loc (l_service c) (l_start c) (Some (l_end c))).
 Fixpoint lilim_build (ci : list coord) (idx : Z) (rels : list (Z * Z)) (m : list (Z * lline)) : res (list job * list coord) :=
   match rels with
   | [] => Ok ([], ci)
   | (p, d) :: r =>
       match alookup p m, alookup d m with
       | Some pc, Some dc =>
-          let '(ci1, sp) := lilim_single ci pc in
-          let '(ci2, sd) := lilim_single ci1 dc in
-          bind (lilim_build ci2 (idx + 1) r m) (fun '(js, cf) => Ok (JMulti idx [sp; sd] :: js, cf))
+          bind (lilim_single ci pc) (fun '(ci1, sp) =>
+          bind (lilim_single ci1 dc) (fun '(ci2, sd) =>
+          bind (lilim_build ci2 (idx + 1) r m) (fun '(js, cf) => Ok (JMulti idx [sp; sd] :: js, cf))))
       | _, _ => Panic
       end
   end.
@@ -251,8 +275,12 @@ Fixpoint tsp_jobs (ci : list coord) (depot : Z) (ord : list Z) (cm : list (Z * c
       | Some xy =>
           match alookup id dm with
           | None => Err
-          | Some d => let '(ci', loc) := collect ci xy in
-                      bind (tsp_jobs ci' depot r cm dm) (fun '(js, cf) => Ok (tsp_job id d loc :: js, cf))
+          | Some d =>
+              (* `*id - 1` on i32: overflow panics in a build with overflow checks (the harness profile; a release
+                 build wraps to 2147483647) *)
+              if id =? i32_min then Panic else
+              let '(ci', loc) := collect ci xy in
+              bind (tsp_jobs ci' depot r cm dm) (fun '(js, cf) => Ok (tsp_job id d loc :: js, cf))
           end
       end
   end.
@@ -298,7 +326,7 @@ Fixpoint nodupZ (seen : list Z) (l : list Z) : list Z :=
   | z :: r => if existsb (Z.eqb z) seen then nodupZ seen r else z :: nodupZ (z :: seen) r
   end.
 Definition tsp_file_order (ls : list line) : list Z :=
-  nodupZ [] (map clamp_i32 (flat_map (fun l => match l with [TInt z; _; _] => [z] | [TDec m k; _; _] => [round_half_away m k] | _ => [] end) ls)).
+  nodupZ [] (map clamp_i32 (flat_map (fun l => match l with [TInt z; _; _] => [z] | [TDec m k; _; _] => [f64_round m k] | _ => [] end) ls)).
 
 (* ---------- initial solution text ---------- *)
 Fixpoint number_from {A} (i : Z) (l : list A) : list (Z * A) :=
@@ -442,7 +470,8 @@ Definition expected_lilim (I : lil_inst) : problem :=
 (* ---- TSPLIB CVRP / EUC_2D ---- *)
 Record tnode := mkTnode { t_id : Z; t_x : Z; t_y : Z; t_dem : Z }.
 Record tsp_inst := mkTsp { ti_nodes : list tnode; ti_depot : Z; ti_capacity : Z }.
-Definition tnode_wf (n : tnode) : Prop := i32 (t_id n) /\ i32 (t_x n) /\ i32 (t_y n) /\ i32 (t_dem n).
+(* node ids above i32::MIN: the reader computes `id - 1` on i32 *)
+Definition tnode_wf (n : tnode) : Prop := (i32 (t_id n) /\ i32_min < t_id n) /\ i32 (t_x n) /\ i32 (t_y n) /\ i32 (t_dem n).
 Definition tsp_wf (I : tsp_inst) : Prop :=
   Forall tnode_wf (ti_nodes I) /\ NoDup (map t_id (ti_nodes I)) /\ In (ti_depot I) (map t_id (ti_nodes I)) /\
   nat32 (ti_capacity I) /\ Z.of_nat (List.length (ti_nodes I)) <= i32_max.
